@@ -439,21 +439,31 @@ const maxCubeVars = 8
 // leaves get the full budget. ok is false when there is nothing to split on or
 // some cube stayed undecided.
 func solveCubes(e *Enc, ob *Obligation, goal T, o *checkOpts, work, name string) (SolveResult, bool) {
-	var conds []T
+	var conds, hints []T
 	for _, sc := range e.splitConds {
 		if sc.at <= ob.Upto {
-			conds = append(conds, sc.c)
+			if sc.hint {
+				hints = append(hints, sc.c)
+			} else {
+				conds = append(conds, sc.c)
+			}
 		}
 	}
-	if len(conds) == 0 {
+	if len(conds)+len(hints) == 0 {
 		return SolveResult{}, false
 	}
-	if len(conds) > maxCubeVars {
-		conds = conds[len(conds)-maxCubeVars:]
-	}
-	// latest condition first: it is the closest to the obligation
+	// the latest hints of a contract first (the innermost loop's case
+	// distinction), then the latest branch conditions: they are the closest
+	// to the obligation
 	for i, j := 0, len(conds)-1; i < j; i, j = i+1, j-1 {
 		conds[i], conds[j] = conds[j], conds[i]
+	}
+	if len(hints) > 4 {
+		hints = hints[len(hints)-4:]
+	}
+	conds = append(hints, conds...)
+	if len(conds) > maxCubeVars {
+		conds = conds[:maxCubeVars]
 	}
 	var mu sync.Mutex
 	var total int64
